@@ -96,6 +96,22 @@ func roots(tier string) []world.Root {
 		// earlier rejected resumes
 		out = append(out, world.Root{Flows: &sets[i], Trigger: "manual", Opt: world.Options{MaxSteps: 8, MaxResumes: 2}})
 	}
+	// localized results: a contact whose language has translations of the router categories (longer
+	// than a category name may be, one with a line break), so that saved results carry them
+	spa := world.DefaultContact()
+	spa["language"] = "spa"
+	loc := world.EnumFlowSets([]string{"A:ctx", "Eo", "W", "WT"}, 2, 1)
+	for i := range loc {
+		if !hasWait(loc[i]) {
+			continue
+		}
+		for j := range loc[i].Flows {
+			loc[i].Flows[j].Localized = true
+		}
+		for _, tr := range []string{"manual", "msg"} {
+			out = append(out, world.Root{Flows: &loc[i], Trigger: tr, Contact: spa, Opt: world.Options{MaxSteps: 8}})
+		}
+	}
 	return out
 }
 
